@@ -149,3 +149,113 @@ Proof.
 Qed.
 Lemma topk_length_le k l : match k with Some k => List.length (topk (Some k) l) <= k | None => True end.
 Proof. destruct k as [k|]; [|exact I]. cbn [topk]. rewrite firstn_length. lia. Qed.
+
+(* ==========================================================================================
+   2. explicit ranking: on tie-free scores the top-k are exactly the items whose rank (number of
+      strictly greater scores) is below k
+   ========================================================================================== *)
+Definition tie_free (l : list item) : Prop := NoDup (map fst l).
+Definition sdesc (l : list item) : Prop := StronglySorted (fun a b => (fst b < fst a)%Z) l.
+
+Lemma tie_free_perm l l' : Permutation l l' -> tie_free l -> tie_free l'.
+Proof. unfold tie_free. intros Hp. apply Permutation_NoDup, Permutation_map, Hp. Qed.
+
+Lemma sorted_tie_free_sdesc l : sorted2 l -> tie_free l -> sdesc l.
+Proof.
+  unfold sorted2, sdesc, tie_free. induction 1 as [|a r Hr IH Ha]; intros Hnd; [constructor|].
+  cbn [map] in Hnd. inversion Hnd as [|? ? Hnin Hnd']; subst. constructor; [apply IH, Hnd'|].
+  rewrite Forall_forall in *. intros b Hb. specialize (Ha b Hb). unfold ge2P, ge2 in Ha.
+  apply orb_true_iff in Ha as [Ha|Ha]; [apply Z.ltb_lt, Ha|].
+  apply andb_true_iff in Ha as [Ha _]. apply Z.eqb_eq in Ha. exfalso. apply Hnin. rewrite Ha. apply in_map, Hb.
+Qed.
+
+Lemma irank_cons z y l : irank z (y :: l) = ((if (z <? fst y)%Z then 1 else 0) + irank z l).
+Proof. unfold irank. cbn [filter]. destruct (z <? fst y)%Z; reflexivity. Qed.
+Lemma irank_perm z l l' : Permutation l l' -> irank z l = irank z l'.
+Proof.
+  induction 1 as [|x l l' Hp IH|x y l|l1 l2 l3 _ IH1 _ IH2]; [reflexivity| | |congruence].
+  - rewrite !irank_cons, IH. reflexivity.
+  - rewrite !irank_cons. lia.
+Qed.
+Lemma irank_below z l : Forall (fun y => (fst y <= z)%Z) l -> irank z l = 0.
+Proof.
+  induction 1 as [|y l Hy _ IH]; [reflexivity|]. rewrite irank_cons, IH.
+  destruct (Z.ltb_spec z (fst y)); [lia|reflexivity].
+Qed.
+
+(* Lemma A: the first k of a strictly descending list = the elements of rank < k *)
+Lemma firstn_sdesc_filter : forall s k, sdesc s ->
+  firstn k s = filter (fun x => Nat.ltb (irank (fst x) s) k) s.
+Proof.
+  induction s as [|a t IH]; intros k Hs; [rewrite firstn_nil; reflexivity|].
+  inversion Hs as [|? ? Ht Hall]; subst. rewrite Forall_forall in Hall.
+  assert (Ha0 : irank (fst a) (a :: t) = 0).
+  { apply irank_below. constructor; [lia|]. rewrite Forall_forall. intros y Hy. specialize (Hall y Hy). lia. }
+  destruct k as [|k].
+  - cbn [firstn]. rewrite (filter_ext _ (fun _ => false)) by (intros; reflexivity).
+    symmetry. clear. induction (a :: t) as [|x l IHl]; [reflexivity|exact IHl].
+  - cbn [filter]. rewrite Ha0.
+    change (Nat.ltb 0 (S k)) with true. cbn [firstn]. f_equal. rewrite (IH k Ht).
+    apply filter_ext_in. intros x Hx. rewrite irank_cons. specialize (Hall x Hx).
+    destruct (Z.ltb_spec (fst x) (fst a)); [|lia]. reflexivity.
+Qed.
+
+Lemma sumlab_cons x l : sumlab (x :: l) = (snd x + sumlab l)%Z.
+Proof. reflexivity. Qed.
+Lemma sumlab_perm l l' : Permutation l l' -> sumlab l = sumlab l'.
+Proof.
+  induction 1 as [|x l l' Hp IH|x y l|l1 l2 l3 _ IH1 _ IH2]; [reflexivity| | |congruence].
+  - rewrite !sumlab_cons, IH. reflexivity.
+  - rewrite !sumlab_cons. lia.
+Qed.
+Lemma filter_perm {A} (f : A -> bool) l l' : Permutation l l' -> Permutation (filter f l) (filter f l').
+Proof.
+  induction 1 as [|x l l' Hp IH|x y l|l1 l2 l3 _ IH1 _ IH2]; [apply Permutation_refl| | |].
+  - cbn [filter]. destruct (f x); [apply perm_skip|]; exact IH.
+  - cbn [filter]. destruct (f x), (f y); try apply Permutation_refl. apply perm_swap.
+  - eapply Permutation_trans; eassumption.
+Qed.
+
+(* on tie-free scores: top-k = the items of rank < k, as a set with the same label sum *)
+Lemma topk_retrieved k l : tie_free l -> Permutation (topk k l) (retrieved k l).
+Proof.
+  intros Htf. destruct k as [k|]; cbn [topk retrieved]; [|apply sortd_perm].
+  assert (Hsd : sdesc (sortd l)).
+  { apply sorted_tie_free_sdesc; [apply sortd_sorted|]. eapply tie_free_perm; [apply Permutation_sym, sortd_perm|exact Htf]. }
+  rewrite (firstn_sdesc_filter _ k Hsd).
+  rewrite (filter_ext _ (fun x => Nat.ltb (irank (fst x) l) k)).
+  - apply filter_perm, sortd_perm.
+  - intros x. rewrite (irank_perm (fst x) _ _ (sortd_perm l)). reflexivity.
+Qed.
+Lemma sumlab_topk k l : tie_free l -> sumlab (topk k l) = sumlab (retrieved k l).
+Proof. intros H. apply sumlab_perm, topk_retrieved, H. Qed.
+
+Theorem prec_fn_spec k lim l : tie_free l -> prec_fn k lim l = prec_spec k lim l.
+Proof. intros H. unfold prec_fn, prec_spec. rewrite (sumlab_topk k l H). reflexivity. Qed.
+Theorem rec_fn_spec k l : tie_free l -> rec_fn k l = rec_spec k l.
+Proof. intros H. unfold rec_fn, rec_spec. rewrite (sumlab_topk k l H). reflexivity. Qed.
+
+(* k beyond the number of candidates: every item is retrieved *)
+Lemma irank_lt_length z l : irank z l <= List.length l.
+Proof. induction l as [|y l IH]; [cbn; lia|]. rewrite irank_cons. simpl (List.length (_ :: _)). destruct (z <? fst y)%Z; lia. Qed.
+Lemma irank_in_lt x l : In x l -> irank (fst x) l < List.length l.
+Proof.
+  induction l as [|y l IH]; intros Hin; [destruct Hin|]. rewrite irank_cons. simpl (List.length (_ :: _)).
+  destruct Hin as [->|Hin].
+  - rewrite Z.ltb_irrefl. pose proof (irank_lt_length (fst x) l) as H. unfold item in *. lia.
+  - specialize (IH Hin). destruct (fst x <? fst y)%Z; lia.
+Qed.
+Lemma retrieved_all k l : List.length l <= k -> retrieved (Some k) l = l.
+Proof.
+  intros Hk. cbn [retrieved]. rewrite (filter_ext_in _ (fun _ => true)).
+  - clear. induction l as [|x l IH]; [reflexivity|]. cbn [filter]. rewrite IH. reflexivity.
+  - intros x Hx. apply Nat.ltb_lt. pose proof (irank_in_lt x l Hx) as H. unfold item in *. lia.
+Qed.
+Theorem prec_spec_k_beyond k lim l : List.length l <= k ->
+  prec_spec (Some k) lim l = qdivx (zq (sumlab l)) (zq (Z.of_nat (if lim then List.length l else k))).
+Proof.
+  intros Hk. unfold prec_spec. rewrite (retrieved_all k l Hk). cbn [nb_retrieved].
+  destruct lim; [rewrite Nat.min_r by exact Hk|]; reflexivity.
+Qed.
+Theorem rec_spec_k_beyond k l : List.length l <= k -> rec_spec (Some k) l = qdivx (zq (sumlab l)) (zq (sumlab l)).
+Proof. intros Hk. unfold rec_spec. rewrite (retrieved_all k l Hk). reflexivity. Qed.
